@@ -1,5 +1,4 @@
 //! C11 — cube root is the true root rounded as the context dictates, for both signs.
-use props::alpha::*;
 use props::engine::*;
 use props::roots::*;
 use serde_json::json;
